@@ -660,7 +660,18 @@ class World:
         return res
 
     def unfold(self, sf: SpecFn, app):
-        """Definitional axiom  f(args) == body[args]  for one application term."""
+        """Definitional axiom  f(args) == body[args]  for one application term (memoised per term: z3 terms are hash-consed,
+        and the cache keeps the term alive so its id cannot be reused)."""
+        cache = self.__dict__.setdefault('_unfold_cache', {})
+        key = (app.get_id(), frozenset(getattr(self, 'current_opaque', ())))
+        hit = cache.get(key)
+        if hit is not None:
+            return hit[1]
+        ax = self._unfold(sf, app)
+        cache[key] = (app, ax)
+        return ax
+
+    def _unfold(self, sf: SpecFn, app):
         cargs = []
         for (pn, pt), a in zip(sf.params.items(), app.children()):
             if isinstance(pt, ObjType):
@@ -686,41 +697,70 @@ class World:
         return app == z3.If(lb == 0, False, z3.If(la == 0, True, z3.Or(a[0] < b[0], z3.And(a[0] == b[0], f(ta, tb)))))
 
     # ---------------------------------------------------------------- closing a VC under definitions/axioms
+    def scan(self, f):
+        """(spec/lex applications, Node-sorted terms, seq.nth terms over Node sequences) occurring in formula f.
+        Memoised per top-level formula: the obligations of one function share most of their path-condition formulas, and
+        walking z3 terms through the Python API is what costs time."""
+        cache = self.__dict__.setdefault('_scan_cache', {})
+        fid = f.get_id()
+        hit = cache.get(fid)
+        if hit is not None:
+            return hit[1]
+        names = self.__dict__.get('_scan_names')
+        if names is None:
+            names = {f'spec.{n}' for n in self.specs} | {fn.name() for fn in self._lex.values()}
+            self._scan_names = names
+        node_sort = getattr(self, 'tree', None).NS if getattr(self, 'tree', None) is not None else None
+        seqnode_sort = self.tree.SEQ_NODE.sort() if node_sort is not None else None
+        apps, nodes, nths = {}, {}, {}
+        visited = set()
+        stack = [f]
+        while stack:
+            t = stack.pop()
+            tid = t.get_id()
+            if tid in visited:
+                continue
+            visited.add(tid)
+            if z3.is_app(t):
+                d = t.decl()
+                if d.name() in names:
+                    apps[tid] = t
+                if node_sort is not None:
+                    if t.sort().eq(node_sort):
+                        nodes[tid] = t
+                    if d.kind() == z3.Z3_OP_SEQ_NTH and t.arg(0).sort().eq(seqnode_sort):
+                        nths[tid] = t
+                stack.extend(t.children())
+            elif z3.is_quantifier(t):
+                stack.append(t.body())
+        res = (apps, nodes, nths)
+        cache[fid] = (f, res)
+        return res
+
     def close(self, formulas, depth=2, extra_terms=()):
         """Return definitional axioms for the spec applications (and tree axioms for Node terms) in `formulas`."""
         by_name = {f'spec.{n}': s for n, s in self.specs.items()}
         lex_names = {f.name() for f in self._lex.values()}
+        self._scan_names = set(by_name) | lex_names
+        opaque = getattr(self, 'current_opaque', ())
         seen_apps = set()
         axioms = []
         frontier = list(formulas) + list(extra_terms)
-        all_terms = set()
         for _round in range(depth):
-            apps = []
-            visited = set()
-            stack = list(frontier)
-            while stack:
-                t = stack.pop()
-                tid = t.get_id()
-                if tid in visited:
-                    continue
-                visited.add(tid)
-                if z3.is_app(t):
-                    all_terms.add(t)
-                    nm = t.decl().name()
-                    if (nm in by_name or nm in lex_names) and tid not in seen_apps:
-                        seen_apps.add(tid)
-                        apps.append(t)
-                    stack.extend(t.children())
-                elif z3.is_quantifier(t):
-                    stack.append(t.body())
+            apps = {}
+            for f in frontier:
+                for tid, app in self.scan(f)[0].items():
+                    if tid not in seen_apps:
+                        apps[tid] = app
             new = []
-            for app in apps:
+            for tid, app in apps.items():
+                seen_apps.add(tid)
                 nm = app.decl().name()
                 if nm in lex_names:
                     new.append(self.lex_axiom(app))
                 else:
                     sf = by_name[nm]
-                    if sf.abstract or sf.name in getattr(self, 'current_opaque', ()):
+                    if sf.abstract or sf.name in opaque:
                         continue
                     new.append(self.unfold(sf, app))
             if not new:
@@ -728,7 +768,7 @@ class World:
             axioms.extend(new)
             frontier = new
         for r in self.axiom_rules:
-            axioms.extend(r(self, formulas + axioms))
+            axioms.extend(r(self, list(formulas) + axioms))
         return axioms
 
     # ---------------------------------------------------------------- contract calls
